@@ -297,6 +297,16 @@ func repetitionSeeds() []seed {
 			add(fmt.Sprintf("cr3-3000-cmt-boxes-of-%d-bytes", len(blk)), "cr3", gen.EncodeBoxes(top).B)
 		}
 	}
+	{ // CR3 whose moov holds hundreds of small preview boxes (each one is handed to the preview reader)
+		p := gen.CR3FromRecord(gen.MinimalRecord(), gen.CanonicalLayout(), II)
+		top := gen.CR3(p, 0)
+		moov := top[1]
+		for i := 0; i < 400; i++ {
+			moov.Children = append(moov.Children, &gen.Box{Type: "uuid", UUID: gen.UUIDCr3Preview, Payload: &gen.Doc{B: []byte{0, 0, 0, 0, 0, 0, 0, 1}},
+				Children: []*gen.Box{gen.PRVWBox([]byte("\xff\xd8tiny\xff\xd9"))}})
+		}
+		add("cr3-400-small-preview-boxes-inside-moov", "cr3", gen.EncodeBoxes(top).B)
+	}
 	{ // item-based HEIF / AVIF whose meta box holds thousands of payload-less children of every handled type
 		for _, typ := range []string{"hdlr", "iinf", "iref", "pitm", "iloc", "idat", "iprp", "free", "zzzz"} {
 			for _, major := range []string{"avif", "heic"} {
